@@ -24,6 +24,10 @@ pub trait Broker: Send {
     /// Labels of the environment actions the broker currently offers (pushes, releases).
     fn actions(&self) -> Vec<String>;
     fn apply(&mut self, idx: usize, out: &mut BrokerOut);
+    /// Fire a manual push by label (batch drivers). Returns false if unknown or used.
+    fn force(&mut self, _label: &str, _out: &mut BrokerOut) -> bool {
+        false
+    }
     fn as_any(&mut self) -> &mut dyn std::any::Any;
 }
 
@@ -81,12 +85,14 @@ pub struct Push {
     /// offered only while this channel is open at the broker and has seen at least this
     /// many requests (Channel.Open counts as the first)
     pub chan_requests: Option<(u16, u32)>,
+    /// never offered to the explorer; only the scenario's driver can fire it
+    pub manual: bool,
     pub used: bool,
 }
 
 impl Push {
     pub fn new(label: &str, frames: Vec<AMQPFrame>) -> Push {
-        Push { label: label.to_string(), frames, eof_after: false, after_client_frames: 0, after_pushes: 0, chan_requests: None, used: false }
+        Push { label: label.to_string(), frames, eof_after: false, after_client_frames: 0, after_pushes: 0, chan_requests: None, manual: false, used: false }
     }
     pub fn after_frames(mut self, n: usize) -> Push {
         self.after_client_frames = n;
@@ -98,6 +104,10 @@ impl Push {
     }
     pub fn when_channel(mut self, chan: u16, requests: u32) -> Push {
         self.chan_requests = Some((chan, requests));
+        self
+    }
+    pub fn manual(mut self) -> Push {
+        self.manual = true;
         self
     }
     pub fn eof(mut self) -> Push {
@@ -153,6 +163,9 @@ pub struct StdBroker {
     pub silent_after_handshake: bool,
     /// channels currently open from the broker's point of view
     pub open_channels: std::collections::BTreeSet<u16>,
+    /// channels the broker has closed itself and whose CloseOk is outstanding: everything
+    /// else the client still sends on them is discarded, as a real broker does
+    pub closing_channels: std::collections::BTreeSet<u16>,
 }
 
 impl StdBroker {
@@ -182,6 +195,7 @@ impl StdBroker {
             emitted: 0,
             silent_after_handshake: false,
             open_channels: Default::default(),
+            closing_channels: Default::default(),
         }
     }
 
@@ -458,6 +472,11 @@ impl StdBroker {
                 AMQPFrame::Method(0, AMQPClass::Connection(connection::AMQPMethod::CloseOk(_))) => {
                     out.eof = true;
                 }
+                AMQPFrame::Method(chan, AMQPClass::Channel(channel::AMQPMethod::CloseOk(_))) => {
+                    self.closing_channels.remove(&chan);
+                    self.open_channels.remove(&chan);
+                }
+                AMQPFrame::Method(chan, _) | AMQPFrame::Header(chan, _, _) | AMQPFrame::Body(chan, _) if self.closing_channels.contains(&chan) => {}
                 AMQPFrame::Method(chan, m) => {
                     let ids = (env.payload.get(0..2).map(|b| u16::from_be_bytes([b[0], b[1]])).unwrap_or(0), env.payload.get(2..4).map(|b| u16::from_be_bytes([b[0], b[1]])).unwrap_or(0));
                     if self.client_closed || self.mute.contains(&ids) {
@@ -503,7 +522,7 @@ impl StdBroker {
 
 impl StdBroker {
     fn push_available(&self, p: &Push) -> bool {
-        if p.used || self.server_closed || self.client_closed {
+        if p.used || p.manual || self.server_closed || self.client_closed {
             return false;
         }
         if self.frames.len() < p.after_client_frames {
@@ -614,6 +633,7 @@ impl Broker for StdBroker {
                         }
                         if let AMQPFrame::Method(c, AMQPClass::Channel(channel::AMQPMethod::Close(_))) = f {
                             self.open_channels.remove(c);
+                            self.closing_channels.insert(*c);
                         }
                     }
                     self.emit_now(&frames, out);
@@ -625,6 +645,31 @@ impl Broker for StdBroker {
                 i += 1;
             }
         }
+    }
+
+    fn force(&mut self, label: &str, out: &mut BrokerOut) -> bool {
+        let pi = match self.pushes.iter().position(|p| p.manual && !p.used && p.label == label) {
+            Some(i) => i,
+            None => return false,
+        };
+        self.pushes[pi].used = true;
+        let frames = self.pushes[pi].frames.clone();
+        let eof = self.pushes[pi].eof_after;
+        self.pushes_used += 1;
+        for f in &frames {
+            if let AMQPFrame::Method(0, AMQPClass::Connection(connection::AMQPMethod::Close(_))) = f {
+                self.server_closed = true;
+            }
+            if let AMQPFrame::Method(c, AMQPClass::Channel(channel::AMQPMethod::Close(_))) = f {
+                self.open_channels.remove(c);
+                self.closing_channels.insert(*c);
+            }
+        }
+        self.emit_now(&frames, out);
+        if eof {
+            out.eof = true;
+        }
+        true
     }
 
     fn as_any(&mut self) -> &mut dyn std::any::Any {
